@@ -44,7 +44,7 @@ pub open spec fn raw_of_dm(dm: DecodedMap, r: RawSourceMap) -> bool
     match dm { DecodedMap::Regular(sm) => raw_of_regular(&sm, r), DecodedMap::Index(i) => raw_of_index(&i, r), DecodedMap::Hermes(h) => raw_of_hermes(&h, r) }
 }
 /// what the encoder needs of its input, recursively: token lists ordered by generated position (as every constructor leaves them), tables below 2^32 entries
-pub open spec fn enc_wf_sm(sm: &SourceMap) -> bool { sorted_tokens(sm.tokens@) && sm.tokens@.len() < usize::MAX / 16 && sm.names@.len() <= 0xffff_ffff }
+pub open spec fn enc_wf_sm(sm: &SourceMap) -> bool { sorted_tokens(sm.tokens@) && sm.tokens@.len() < usize::MAX / 16 && sm.names@.len() <= 0xffff_ffff && sm.sources@.len() <= 0xffff_ffff }
 pub open spec fn enc_wf_index(idx: &SourceMapIndex) -> bool
     decreases *idx
 {
